@@ -5,6 +5,7 @@
 # 2. runs the quick checks of the given properties against the patched worktree (FORMULAE_REPO / PYTHONPATH
 #    point the shards at it, so /repo itself and any background run using it are left alone)
 #    INPLACE=1 applies the patch to /repo instead (git -C /repo apply ... checkout), the way the brief describes
+VERIF_DIR="$(cd "$(dirname "$(readlink -f "${BASH_SOURCE[0]}")")/.." && pwd)"
 set -u
 MD=$(readlink -f "$1"); shift 1
 WT=/tmp/wt/_verify_$$
@@ -18,7 +19,7 @@ git apply /tmp/wt/_patch_$$.diff
 T=$(PYTHONPATH=$WT /venv/bin/python -m pytest -q -p no:cacheprovider --deselect tests/test_poly.py::test_basic --deselect tests/test_poly.py::test_degree 2>&1 | tail -1)
 (cd /tmp && PYTHONPATH=$WT timeout 300 /venv/bin/python "$MD/demo.py" >/dev/null 2>&1); D1=$?
 echo "tests-with-patch: $T | demo-with-patch exit=$D1 | demo-without exit=$D0"
-cd "$(dirname "$(readlink -f "${BASH_SOURCE[0]}")")/.."
+cd "$VERIF_DIR"
 if [ "${INPLACE:-0}" = "1" ]; then
   git -C /repo apply "$MD/patch.diff" || { echo "APPLY-FAILED in /repo"; exit 3; }
   RUN=""
